@@ -32,6 +32,7 @@ def load_known():
 
 def engine_env():
     e = dict(os.environ)
+    e["VERIF_ROOT"] = ROOT
     e["ASAN_OPTIONS"] = "detect_leaks=0:abort_on_error=0:allocator_may_return_null=1:exitcode=99"
     e["UBSAN_OPTIONS"] = "halt_on_error=1:exitcode=98:print_stacktrace=0"
     return e
